@@ -76,7 +76,7 @@ RULE = ("cases = (tag kind {FeliCa Lite, Lite-S, Lite-S/Link, NTAG210/212/213/21
         "kept} against key-holding and other-key tags; PWD_AUTH/AUTHENTICATE responses of other lengths; 1-4 writes "
         "with MAC per session; sessions of 3-7 steps over {ndef read, authenticate right/wrong, ndef write, "
         "read_with_mac, has_changed} x man in the middle on/off per step x standing modification {message bit, block "
-        "substituted, attribute length rewritten} on one tag object (12 fixed sequences + random ones), reads before "
+        "substituted, attribute length rewritten} on one tag object (13 fixed sequences + random ones), reads before "
         "authentication included. A case is distinct by (experiment, tag model, password, modification) and non-trivial when the "
         "deciding call was reached (tag activated, set-up authentication succeeded, modification applied).")
 ASSUMPTIONS = [
@@ -116,7 +116,8 @@ REQUIRED = ["sessions_lite", "sessions_lites", "sessions_ntag21x", "sessions_ulc
             "order_falsified_before_auth_then_genuine/lite", "order_falsified_before_auth_then_genuine/lites",
             "order_falsified_before_auth_then_rejected/lite", "order_falsified_before_auth_then_rejected/lites",
             "order_mac_reads_after_auth", "order_repeated_read_after_auth_ok", "order_reauth_after_failed_auth",
-            "order_read_after_write_ok", "order_rmac_ok", "order_rmac_tampered_rejected"]
+            "order_read_after_write_ok", "order_read_after_refused_write_ok", "order_rmac_ok",
+            "order_rmac_tampered_rejected"]
 
 NTAGS = ("ntag210", "ntag212", "ntag213", "ntag215", "ntag216")
 ULEV1 = ("ul11", "ul21")
@@ -1228,7 +1229,7 @@ def x_order(case, R):
     authed = False            # the last authenticate() of this session returned True
     failed_before = False     # an authenticate() of this session returned something else than True
     falsified = None          # octets an unprotected read handed out that the tag never held (nothing genuine since)
-    after_write = False
+    after_write = after_failed_write = False
     genuine_since_auth = False
     unknown = False           # a write failed half way: cache and tag may differ for reasons outside this property
     judged = 0
@@ -1314,7 +1315,7 @@ def x_order(case, R):
             octets, length, recs = res[1]
             if octets != want:
                 if not wire:
-                    cls = "stale-ndef-after-authenticate"
+                    cls = "stale-ndef-after-authenticate" if octets == falsified else "cached-ndef-not-tag-content"
                     how = ("no command went to the tag: the object cached %s authentication was handed out"
                            % ("by an unprotected read before" if octets == falsified else "before"))
                 elif applied:
@@ -1345,10 +1346,19 @@ def x_order(case, R):
             if after_write:
                 R.count("order_read_after_write_ok")
                 after_write = False
+            if after_failed_write:
+                R.count("order_read_after_refused_write_ok")
+                after_failed_write = False
             falsified = None
         elif op == "write":
             before = want
-            res = call(lambda: setattr(tag.ndef, "octets", bytes(st["data"])))
+            def do_write():
+                n = tag.ndef
+                if n is None:
+                    return "no-ndef-object"
+                n.octets = bytes(st["data"])
+
+            res = call(do_write)
             mitm.rule_on = False
             now = genuine_message(sess)
             R.count("order_write/%s/%s/%s" % (fam, "authenticated" if authed else "not-authenticated", okind(res)))
@@ -1358,6 +1368,8 @@ def x_order(case, R):
                 R.count("order_write_ok")
             elif now != before:
                 unknown = True
+            elif res[0] == "exc" and authed:
+                after_failed_write = True      # nothing reached the tag (the attribute read did not verify)
         elif op == "rmac":
             blocks = [int(b) for b in st["blocks"]]
             wantb = expected_blocks(model, blocks)
@@ -1921,6 +1933,7 @@ ORDER_PATTERNS = [
     "N* W A+ N R*",               # the falsified object is replaced by a write before authentication
     "N* A+ W N* A+ N",
     "N* A+ A+ N",
+    "A+ N W* N",                  # (modification of the attribute block) the write is refused, nothing was written
 ]
 ORDER_PATTERNS_T2 = ["N* A+ N", "A+ N* A+ N", "N A+ N*"]
 
@@ -1934,12 +1947,14 @@ def order_message(rng):
     return rng.randbytes(rng.choice([5, 16, 17, 33, 48, 49, 96, 150, 208]))
 
 
-def order_rule(rng, msg):
-    """a modification that changes the message an unprotected NDEF read returns"""
+def order_rule(rng, msg, attr=False):
+    """a modification that changes the message an unprotected NDEF read returns (attr: one of the attribute block)"""
     ln = len(msg)
     nb = (ln + 15) // 16
     c = rng.randrange(4)
-    if c == 0 or ln == 0:
+    if attr and c >= 2:
+        return {"rule": "flip", "block": 0, "bit": rng.randrange(128)}
+    if c == 0 or ln == 0 or attr:
         cand = [x for x in (0, ln - 1, ln + 1, ln // 2, 208, rng.randrange(209)) if 0 <= x <= 208 and x != ln]
         return {"rule": "attr-ln", "ln": rng.choice(cand)}
     block = rng.randrange(1, nb + 1)
@@ -1990,7 +2005,7 @@ def w_order(R, rng, desc):
                 pw = gen_password(rng, kind, "bytes", rng.choice([0, 16, 16, 24]))
                 msg = order_message(rng)
                 ms = t3_spec(rng, kind, derive(kind, pw), msg=msg, ndef=True)
-                rule = order_rule(rng, msg)
+                rule = order_rule(rng, msg, attr="W*" in pattern)
                 case = {"exp": "order", "ms": ms, "pw": pw, "rule": rule,
                         "steps": order_steps(rng, pattern, kind, pw, msg, rule)}
                 evaluate(case, R)
@@ -2008,7 +2023,7 @@ def w_order(R, rng, desc):
         pw = gen_password(rng, kind, "bytes", rng.choice([0, 16, 16, 24]))
         msg = order_message(rng)
         ms = t3_spec(rng, kind, derive(kind, pw), msg=msg, ndef=True)
-        rule = order_rule(rng, msg)
+        rule = order_rule(rng, msg, attr="W*" in toks and rng.random() < 0.5)
         evaluate({"exp": "order", "ms": ms, "pw": pw, "rule": rule,
                   "steps": order_steps(rng, " ".join(toks), kind, pw, msg, rule)}, R)
     # Type 2 families (no message authentication for reads): what happens to the cached object is recorded only
